@@ -472,6 +472,14 @@ func (eng *Engine) genOverlay(p *packages.Package, cf *ContractFile, fset *token
 				a.Clause.Pos = pos
 				lp := fset.Position(calls[a.Ordinal-1].Lparen)
 				a.File, a.Off = lp.Filename, lp.Offset
+				if a.SinceCallee != "" {
+					sc := collectCalls(fi.decl, a.SinceCallee)
+					if a.SinceOrdinal < 1 || a.SinceOrdinal > len(sc) {
+						return nil, fmt.Errorf("%s:%d: %s has %d calls of %s, contract names call %d", cf.Path, a.Clause.Line, fs.Name, len(sc), a.SinceCallee, a.SinceOrdinal)
+					}
+					sp := fset.Position(sc[a.SinceOrdinal-1].Lparen)
+					a.SinceFile, a.SinceOff = sp.Filename, sp.Offset
+				}
 				when := "before"
 				if !a.Before {
 					when = "after"
